@@ -6,6 +6,7 @@ toolchain go1.23.5
 
 require (
 	github.com/compose-spec/compose-go/v2 v2.0.0-00010101000000-000000000000
+	github.com/google/go-cmp v0.5.9
 	github.com/sirupsen/logrus v1.9.0
 	pgregory.net/rapid v1.3.0
 )
